@@ -3,8 +3,12 @@ module github.com/lindb/lindb/zzverif
 go 1.23
 
 require (
+	github.com/cespare/xxhash/v2 v2.2.0
+	github.com/google/flatbuffers v23.3.3+incompatible
 	github.com/lindb/common v0.0.6
 	github.com/lindb/lindb v0.0.0
+	github.com/lindb/roaring v1.2.1
+	github.com/lithammer/go-jump-consistent-hash v1.0.2
 	go.uber.org/zap v1.21.0
 	google.golang.org/grpc v1.59.0
 )
@@ -13,13 +17,11 @@ require (
 	github.com/BurntSushi/toml v1.2.1 // indirect
 	github.com/antlr4-go/antlr/v4 v4.13.0 // indirect
 	github.com/caarlos0/env/v7 v7.1.0 // indirect
-	github.com/cespare/xxhash/v2 v2.2.0 // indirect
 	github.com/coreos/go-semver v0.3.0 // indirect
 	github.com/coreos/go-systemd/v22 v22.5.0 // indirect
 	github.com/dustin/go-humanize v1.0.1 // indirect
 	github.com/gogo/protobuf v1.3.2 // indirect
 	github.com/golang/protobuf v1.5.4 // indirect
-	github.com/google/flatbuffers v23.3.3+incompatible // indirect
 	github.com/google/uuid v1.3.1 // indirect
 	github.com/grpc-ecosystem/go-grpc-middleware v1.3.0 // indirect
 	github.com/hashicorp/golang-lru/v2 v2.0.7 // indirect
@@ -27,8 +29,6 @@ require (
 	github.com/json-iterator/go v1.1.12 // indirect
 	github.com/klauspost/compress v1.17.1 // indirect
 	github.com/klauspost/cpuid v1.3.1 // indirect
-	github.com/lindb/roaring v1.2.1 // indirect
-	github.com/lithammer/go-jump-consistent-hash v1.0.2 // indirect
 	github.com/mattn/go-isatty v0.0.19 // indirect
 	github.com/mattn/go-runewidth v0.0.14 // indirect
 	github.com/modern-go/concurrent v0.0.0-20180306012644-bacd9c7ef1dd // indirect
